@@ -122,7 +122,10 @@ def api_variants(R, B, rng):
             return
         for what, g, w in res:
             R.check(g == w and type(g) is type(w), f'api-variant-value-{name}', f'{name}: {what} gave {mon.srepr(g, 60)} ({type(g).__name__}), expected {mon.srepr(w, 60)}', W)
-    for text in ('', 'a', 'héllo wörld', 'ascii only', '€' * 40, 'x' * 127):
+    # texts that are not in a Unicode normal form (combining marks, compatibility characters, conjoining jamo), have lone surrogate-free astral characters, control
+    # characters and a NUL: a string field holds exactly the code points given, in UTF-8
+    for text in ('', 'a', 'héllo wörld', 'ascii only', '€' * 40, 'x' * 127, 'cafe\u0301', '\u212b\u2126', 'n\u0303o', '\u1100\u1161\u11a8', '\ufb01n', '\u00e9 e\u0301', 'a\x00b\x7f\x01',
+                 '\U0001f600\U0001f1e6\U0001f1fa', '\u200b\u200d\ufeff', '\u0041\u030a\u0327'):
         enc = text.encode()
         pre = gen.rand_bits(rng, rng.choice([0, 3, 8]) if len(enc) <= 126 else 0)
         # a string as the last field, read with the default length (= everything that is left)
